@@ -250,7 +250,8 @@ func VerifC12Op(n int, op int) {
 		om.orphanExpire(time.Unix(int64(now), 0))
 		k := 0
 		for i := range st.hashes {
-			if st.exp[i] < now {
+			// an orphan expiring exactly now may go or stay (policy, not part of C12)
+			if st.exp[i] < now || (st.exp[i] == now && !om.BlockExist(&st.hashes[i])) {
 				st.present[i] = false
 				k++
 			}
